@@ -112,7 +112,8 @@ func VH_P_Create() {
 		vx.Assert(vx.And(post.Int("state") == 1, post.Int("timeout") == req.Timeout, post.Int("created_on") == vx.YieldTime(1),
 			vx.MapEq(post.Map("tags"), req.Tags), vx.MapEq(post.Map("param_headers"), req.Param.Headers), vx.BytesEq(post.Bytes("param_data"), req.Param.Data),
 			vhKeyIs(req.IdempotencyKey, post.Null("idempotency_key_for_create"), post.Str("idempotency_key_for_create"))), "C20:created-as-supplied")
-		vx.Assert(vx.Not(vx.And(int64(p.State) == 1, p.Timeout <= vx.Now())), "C04:never-pending-past-deadline")
+		// known finding D15: a promise created with a timeout that has already passed is answered as pending
+		vx.Assert(vx.Not(vx.And(int64(p.State) == 1, p.Timeout <= vx.Now())), "C04:created-never-pending-past-deadline")
 		return
 	}
 	if n == 1 {
